@@ -1,19 +1,49 @@
-import Adlt.Dlt.Enc
+import Adlt.Dlt.RoundTrip
 /-! # C02 — export fidelity: write/parse round trip and normal form
 
-Model: `Dp.toWrite` (= `DltMessage::to_write`). The executable statement `Dp.Spec.C02one` (re-parse of the
-written bytes gives back ECU, reception time, timestamp and its presence, counter, byte order, extended
-header and payload, consumes exactly the bytes written, and writing the re-read message reproduces the
-bytes) is evaluated on the bytes the implementation writes for every message of every generated stream. -/
+Model: `Dp.toWrite` (= `DltMessage::to_write`: storage header rebuilt from the message, standard header with recomputed
+htyp / length, no ECU id or session id in it), `Dp.parseStorage`. The same statement (`Dp.Spec.C02one`) is evaluated on the
+bytes the implementation writes for every message of every generated stream. -/
 namespace Props
 open Dp
 
-/-- the re-parse step of the round trip, on the model: whatever `toWrite` emits for a message is the
-    encoding of a well-formed raw message, so (by the C01 lemma) it parses back consuming exactly the bytes written -/
+/-- **round trip and normal form**, for every message in the range of the parser (`InRange`: 4-byte ECU id, 10-byte
+    extended header if present, 32-bit timestamp and seconds, timestamp 0 when the flag is clear, rewritten length fits 16
+    bits): `to_write` succeeds; parsing the written bytes — alone or followed by anything on which the corruption heuristic
+    does not fire — consumes exactly the bytes written and gives back ECU, reception time, timestamp and its presence,
+    message counter, byte order, extended header and payload; writing the re-read message produces the same bytes again -/
+theorem C02_roundtrip (m : Msg) (h : InRange m) (i : Nat) (rest : Bytes)
+    (hh : ∀ w, toWrite m = some w → heuristicFires storagePat (w ++ rest) w.length = false) :
+    ∃ w m', toWrite m = some w ∧ parseStorage i (w ++ rest) = .ok (w.length, m') ∧
+      m'.ecu = m.ecu ∧ m'.recvUs = m.recvUs ∧ m'.tsDms = m.tsDms ∧ m'.std.hasTs = m.std.hasTs ∧ m'.std.mcnt = m.std.mcnt ∧
+      m'.std.bigEndian = m.std.bigEndian ∧ m'.ext = m.ext ∧ m'.payload = m.payload ∧ m'.index = i ∧ toWrite m' = some w :=
+  roundtrip m h i rest hh
+
+/-- the case of a file that ends after the message: no side condition at all -/
+theorem C02_roundtrip_alone (m : Msg) (h : InRange m) (i : Nat) :
+    ∃ w m', toWrite m = some w ∧ parseStorage i w = .ok (w.length, m') ∧
+      m'.ecu = m.ecu ∧ m'.recvUs = m.recvUs ∧ m'.tsDms = m.tsDms ∧ m'.std.hasTs = m.std.hasTs ∧ m'.std.mcnt = m.std.mcnt ∧
+      m'.std.bigEndian = m.std.bigEndian ∧ m'.ext = m.ext ∧ m'.payload = m.payload ∧ m'.index = i ∧ toWrite m' = some w := by
+  have := roundtrip m h i [] (fun w _ => heuristic_nil w)
+  simpa using this
+
+/-- the hypothesis is met by everything the reader produces: every message `parse_dlt_with_storage_header` yields from a
+    storage header with sub-second microseconds is in that range (so what was read can always be exported, without
+    overflow of the 16-bit length: the rewritten header is never longer than the original one) -/
+theorem C02_parsed_in_range (i : Nat) (d : Bytes) (n : Nat) (m : Msg) (h : parseStorage i d = .ok (n, m))
+    (hmic : le32 ((d.drop 8).take 4) < 1000000) : InRange m := parse_inRange i d n m h hmic
+
+/-- the re-parse step alone (kept from the first version): an encoded well-formed message parses back -/
 theorem C02_written_parses (i : Nat) (r : RawMsg) (hw : r.wf false = true) :
     parseStorage i (r.enc false ++ []) = .ok ((r.enc false).length, r.msg false i) := by
   rw [enc_length_storage r (wf_facts false r hw)]
   apply parseStorage_enc i r hw []
   simp [heuristicFires, enc_length_storage r (wf_facts false r hw)]
+
+/-- non-vacuity: a message with timestamp flag set and timestamp 0, big endian, extended header -/
+example : InRange { index := 0, recvUs := 1700000000123456, ecu := [69, 67, 85, 49], tsDms := 0,
+                    std := { htyp := 0x33, mcnt := 9, len := 0 }, ext := some [0x41, 1, 65, 80, 73, 68, 67, 84, 73, 68], payload := [1, 2, 3] } := by
+  refine ⟨rfl, ?_, by decide, by decide, by decide, by decide⟩
+  intro e he; cases he; rfl
 
 end Props
